@@ -9,7 +9,7 @@ from Hypothesis draws.
 """
 from hypothesis import strategies as st
 
-from .model import Ref, runs_of
+from .model import Ref, runs_of, snap
 
 # ----------------------------------------------------------------------------- node universes
 INT_POOL = [0, 1, 2, 3, -1, 7, 10, -5, 42, 100, -2, 1000, 2 ** 40, -300]     # incl. hash(-1) == hash(-2) and ints outside the small-int cache
@@ -45,6 +45,40 @@ class Opaque:
 
 
 OPAQUE = [Opaque(i) for i in range(6)]
+
+
+class Handle:
+    """An attribute *value* that is equal only to itself and cannot be copied or pickled (like a lock, an
+    open file, a connection).  Used only where the property says the attributes are carried, not copied."""
+    __slots__ = ('k',)
+
+    def __init__(self, k):
+        self.k = k
+
+    def __repr__(self):
+        return 'Handle(%d)' % self.k
+
+    def __deepcopy__(self, memo):
+        raise TypeError("cannot pickle 'Handle' object")
+
+    def __reduce_ex__(self, proto):
+        raise TypeError("cannot pickle 'Handle' object")
+
+
+HANDLES = [Handle(i) for i in range(3)]
+
+
+def decode_attrs(x):
+    """Case encoding -> attribute value: {"hnd": k} is HANDLES[k]; containers are rebuilt (fresh objects)."""
+    if isinstance(x, dict):
+        if len(x) == 1 and 'hnd' in x:
+            return HANDLES[x['hnd']]
+        return {k: decode_attrs(v) for k, v in x.items()}
+    if isinstance(x, list):
+        return [decode_attrs(v) for v in x]
+    return x
+
+
 
 
 def fresh(n):
@@ -117,7 +151,12 @@ ATTR_VALUES = st.recursive(
     lambda c: st.one_of(st.lists(c, max_size=2), st.dictionaries(st.sampled_from(['k', 'j']), c, max_size=2)),
     max_leaves=4)
 # attribute names include ones that are parameter names somewhere in the library or in networkx ('n', 'data', 'source', ...)
-ATTRS = st.dictionaries(st.sampled_from(['Label', 'w', 'meta', 'lab', 'n', 'source', 'target', 'time', 'data', 't']), ATTR_VALUES, max_size=2)
+ATTR_KEYS = ['Label', 'w', 'meta', 'lab', 'n', 'source', 'target', 'time', 'data', 't']
+ATTRS = st.dictionaries(st.sampled_from(ATTR_KEYS), ATTR_VALUES, max_size=2)
+# ... and, where attributes are carried rather than copied, values that are equal only to themselves and refuse copying
+ATTRS_H = st.dictionaries(st.sampled_from(ATTR_KEYS),
+                          st.one_of(ATTR_VALUES, ATTR_VALUES, st.integers(0, 2).map(lambda k: {"hnd": k}),
+                                    st.integers(0, 2).map(lambda k: [{"hnd": k}])), max_size=2)
 
 
 # ----------------------------------------------------------------------------- histories
@@ -213,11 +252,11 @@ def history(draw, classes=('DynGraph', 'DynDiGraph'), removal=(True,), kinds=Non
                 e = None
             op = [kind, seq, t, form, e]
         elif kind == 'node':
-            op = ['node', draw(st.integers(0, nn - 1)), draw(ATTRS) if attrs else {}]
+            op = ['node', draw(st.integers(0, nn - 1)), draw(ATTRS_H if attrs == 'handles' else ATTRS) if attrs else {}]
         elif kind == 'nodes_from':
             k = draw(st.integers(1, 3))
             op = ['nodes_from', draw(st.lists(st.integers(0, nn - 1), min_size=k, max_size=k)),
-                  draw(ATTRS) if attrs else {}]
+                  draw(ATTRS_H if attrs == 'handles' else ATTRS) if attrs else {}]
         elif kind == 'reject':
             keys = [k for k in model.keys() if model.latest_run(k) is not None]
             if not keys:
